@@ -16,6 +16,26 @@ CHECKS = {
               "alphabet + boundary characters + random long names) of the extracted model against the six constructors."),
         design_ref='DESIGN.md section 7 / C09',
         technique='Coq proof over a hand-written model + exhaustive differential correspondence (extracted OCaml vs crate)'),
+    'C02': dict(
+        text=("Machine-checked proof (Coq): for all sorted, well-typed diagrams a b and every valuation (environments and extras are "
+              "instances), the model's and/or/negate evaluate to the pointwise conjunction/disjunction/negation; results are again "
+              "admissible operands, so the law holds for every expression over the three operations in any order, grouping and "
+              "repetition (induction over expressions); TRUE/FALSE are identities/annihilators as diagrams. The model functions are "
+              "the extracted ones run step-wise against the crate on the operands the crate itself produced (long histories in one "
+              "process, so the AND memo cache and unique table are warm), and every operand passes the verified checker m_wfb, which "
+              "implies the theorems' hypothesis. The memo cache and complemented edges themselves are not modelled at this level."),
+        design_ref='DESIGN.md section 7 / C02',
+        technique='Coq proof (structural induction on diagrams, merge lemma) + step-wise differential correspondence + grid oracle on evaluate()'),
+    'C20': dict(
+        text=("Machine-checked proof (Coq) that the executable checker m_wfb decides the property's well-formedness predicate wf "
+              "(ordered along every path in the crate's variable order, >= 2 edges, cuts strictly increasing = non-empty sorted disjoint "
+              "covering ranges, adjacent children different, boolean children different) and that the model's evaluation is the hand "
+              "walk; the checker (extracted) runs on every diagram the crate produces along random histories of all constructing "
+              "operations, after a checked conversion of the kind() walk into cut form that fails unless the edges are simple ranges "
+              "forming a sorted contiguous cover; the hand walk is compared with evaluate() at the cut values. Preservation of wf by "
+              "each model operation (reach_wf) is proved for the operations listed in evidence; the rest is monitored."),
+        design_ref='DESIGN.md section 7 / C20',
+        technique='Coq proof of checker correctness + verified runtime monitor on every produced diagram + differential evaluation'),
 }
 
 PENDING = {}
